@@ -49,3 +49,23 @@ UNITS['queue'] = dict(
       (r'^EventDispatcherBase<', 'record', 'DispatcherBase'),
     ],
 )
+
+OQ = 'OrderedQueueList<BufferedItem<QEvent>, UserCompare>'
+OQD = 'OrderedQueueList<BufferedItem<QEvent>, OrderedQueueListCompare>'
+UNITS['ordered'] = dict(
+    tu='inst/ordered.cpp', filter=['OrderedQueueList', 'BufferedItem'], std='c++11',
+    root=('ClassTemplateSpecializationDecl', 'OrderedQueueList'), root_q=OQ,
+    extra_roots=[('ClassTemplateSpecializationDecl', 'OrderedQueueList', OQD),
+                 ('ClassTemplateSpecializationDecl', 'BufferedItem', 'BufferedItem<QEvent>'),
+                 ('CXXRecordDecl', 'OrderedQueueListCompare', 'OrderedQueueListCompare')],
+    names={OQ: 'OQL', OQD: 'OQLD', 'OrderedQueueList<BufferedItem<QEvent>>': 'OQLD', 'BufferedItem<QEvent>': 'Slot', 'OrderedQueueListCompare': 'DefaultCompare', 'QEvent': 'QEvent', 'UserCompare': 'UserCompare', 'VArg': 'VArg'},
+    value_records=['VArg', 'QEvent', 'UserCompare', 'DefaultCompare'],
+    opaque_records=['VArg', 'UserCompare', 'QEvent'],
+    ghost_sig=[], fn_tag_default='QEvent', alt_names={OQD: ['OrderedQueueList<BufferedItem<QEvent>>']},
+    type_rules=[
+      (r'^std::(__cxx11::)?list<', 'list', 'WList'),
+      (r'^std::_List_(const_)?iterator<', 'listit', 'WIt'),
+      (r'^std::array<char, ', 'rawbuf', 'QEvent'),
+      (r'^void \(\*(const)?\)\(void \*\)$|DtorFunc$', 'fnptr', 'DtorTag'),
+    ],
+)
